@@ -373,6 +373,9 @@ func (e *Encoder) useLemma(name string) {
 func (f *Frame) pruneForCase(cc *CaseContract) {
 	// guard of the form  <expr> == <const>: find SSA values that compute <expr> and override with the constant
 	g := cc.Guard
+	for g.Op == "binop" && g.Name == "&&" {
+		g = g.Kids[0] // a compound guard is shaped by its first conjunct (the whole guard is still assumed)
+	}
 	if g.Op != "binop" || g.Name != "==" {
 		return
 	}
